@@ -238,6 +238,7 @@ class HistogramDensityMethod(BatchDetector):
         )  # TODO: subsequent operations expect dataframes, not numpy arrays
         # Initialize attributes
         self.reference = copy.deepcopy(X)
+        self._lambda = self.total_batches  # a new epoch starts at this batch number
         self.reset()
 
     def update(self, X, y_true=None, y_pred=None):
